@@ -187,6 +187,16 @@ def obligations(fnode):
             for t in n.targets:
                 if isinstance(t, ast.Name):
                     aliases.add(t.id)
+    # names holding the parameter symbols: assigned from sympy.symbols(...) (or re-wrapped as a one-element list of such a name)
+    sym_names = set()
+    for _ in range(2):
+        for n in ast.walk(fnode):
+            if isinstance(n, ast.Assign) and all(isinstance(t, ast.Name) for t in n.targets):
+                v = n.value
+                if (isinstance(v, ast.Call) and (_dotted(v.func) or "").endswith("symbols")) or \
+                        (isinstance(v, ast.List) and len(v.elts) == 1 and isinstance(v.elts[0], ast.Name) and v.elts[0].id in sym_names) or \
+                        (isinstance(v, ast.Call) and getattr(v.func, "id", None) == "list" and v.args and isinstance(v.args[0], ast.Name) and v.args[0].id in sym_names):
+                    sym_names |= {t.id for t in n.targets}
     for n in ast.walk(fnode):
         if isinstance(n, ast.Assign):
             for t in n.targets:
@@ -194,7 +204,7 @@ def obligations(fnode):
                     key, val = t.slice, n.value
                     okk = isinstance(key, ast.BinOp) and isinstance(key.op, ast.Mod) and isinstance(key.left, ast.Constant) and key.left.value == "a%i" \
                         and isinstance(key.right, ast.Name)
-                    okv = isinstance(val, ast.Subscript) and isinstance(val.value, ast.Name) and val.value.id == "all_a" and \
+                    okv = isinstance(val, ast.Subscript) and isinstance(val.value, ast.Name) and val.value.id in sym_names and \
                         isinstance(val.slice, ast.Name) and okk and val.slice.id == key.right.id
                     out.append(("write into the module-level symbol table at line %d binds 'a<i>' to the i-th parameter symbol" % n.lineno, bool(okk and okv), n.lineno))
     return out
